@@ -403,6 +403,38 @@ func runC19(w *World, r *Report) {
 		}
 	}
 
+	// the stored form is what the codec makes of the value itself: nothing rewrites a field between the value and the
+	// encoder, or between the decoder and the value (an in-band transformation with no flag cannot be undone reliably)
+	r.rule("storage-codec-is-transparent", "a msgpack Marshal of a ledger struct is given the value itself, not a copy with rewritten fields; after a msgpack Unmarshal no field of the decoded value is assigned", 3)
+	for _, fn := range w.RepoFuncs("accountant", "transaction", "spice", "cache") {
+		for _, c := range callsTo(fn, "github.com/shamaton/msgpack/v2.Marshal", "github.com/vmihailenco/msgpack.Marshal") {
+			v := c.Common().Args[0]
+			if vs, ok := v.(*ssa.Slice); ok { // variadic form Marshal(v...)
+				v = vs.X
+			}
+			why := ""
+			for _, o := range marshalSources(v, 0) {
+				if al, ok := o.(*ssa.Alloc); ok {
+					if fs := fieldStores(al, nil); fs != nil {
+						why = "the encoded value is the local copy " + al.Comment + " whose field is assigned at " + lineOf(w, fs) + " before it is encoded"
+					}
+				}
+			}
+			r.check(why == "", "storage-codec-is-transparent", shortFn(fn)+"/Marshal", lineOf(w, c), "the encoder is given the value itself", why)
+		}
+		for _, c := range callsTo(fn, "github.com/shamaton/msgpack/v2.Unmarshal", "github.com/vmihailenco/msgpack.Unmarshal") {
+			why := ""
+			for _, o := range marshalSources(c.Common().Args[1], 0) {
+				if al, ok := o.(*ssa.Alloc); ok {
+					if fs := fieldStores(al, c.(ssa.Instruction)); fs != nil {
+						why = "field of the decoded value " + al.Comment + " is assigned at " + lineOf(w, fs) + " after decoding"
+					}
+				}
+			}
+			r.check(why == "", "storage-codec-is-transparent", shortFn(fn)+"/Unmarshal", lineOf(w, c), "the decoded value is returned as the decoder filled it", why)
+		}
+	}
+
 	r.rule("decode-into-zero-value", "every msgpack decode writes into a destination that is a fresh zero value on each execution (never a variable reused across records)", 2)
 	for _, fn := range w.RepoFuncs("accountant", "transaction", "spice", "cache") {
 		for _, c := range callsTo(fn, "github.com/shamaton/msgpack/v2.Unmarshal", "github.com/vmihailenco/msgpack.Unmarshal") {
@@ -527,4 +559,68 @@ func isRepoNamed(t types.Type) bool {
 	}
 	n, ok := t.(*types.Named)
 	return ok && n.Obj().Pkg() != nil && strings.HasPrefix(n.Obj().Pkg().Path(), modPath)
+}
+
+
+// marshalSources: the local variables a value handed to the codec is (a load of / the address of).
+func marshalSources(v ssa.Value, d int) []ssa.Value {
+	if v == nil || d > 8 {
+		return nil
+	}
+	switch x := v.(type) {
+	case *ssa.MakeInterface:
+		return marshalSources(x.X, d+1)
+	case *ssa.ChangeType:
+		return marshalSources(x.X, d+1)
+	case *ssa.UnOp:
+		if x.Op == token.MUL {
+			return marshalSources(x.X, d+1)
+		}
+	case *ssa.Alloc:
+		return []ssa.Value{x}
+	case *ssa.Phi:
+		var out []ssa.Value
+		for _, e := range x.Edges {
+			out = append(out, marshalSources(e, d+1)...)
+		}
+		return out
+	}
+	return nil
+}
+
+// fieldStores: a store into a field (at any depth) of local variable al; with after != nil only stores reachable from it.
+func fieldStores(al *ssa.Alloc, after ssa.Instruction) ssa.Instruction {
+	var hit ssa.Instruction
+	var reachAfter map[*ssa.BasicBlock]bool
+	if after != nil {
+		reachAfter = reachable(after.Block().Succs, nil)
+	}
+	var visit func(addr ssa.Value, d int)
+	visit = func(addr ssa.Value, d int) {
+		if d > 6 || hit != nil {
+			return
+		}
+		for _, ref := range *addr.Referrers() {
+			switch x := ref.(type) {
+			case *ssa.FieldAddr:
+				if x.X == addr {
+					for _, r2 := range *x.Referrers() {
+						if st, ok := r2.(*ssa.Store); ok && st.Addr == ssa.Value(x) {
+							if after == nil || reachAfter[st.Block()] || (st.Block() == after.Block() && indexIn(st.Block(), st) > indexIn(after.Block(), after)) {
+								hit = st
+								return
+							}
+						}
+					}
+					visit(x, d+1)
+				}
+			case *ssa.IndexAddr:
+				if x.X == addr {
+					visit(x, d+1)
+				}
+			}
+		}
+	}
+	visit(al, 0)
+	return hit
 }
